@@ -1045,6 +1045,12 @@ func TestC15(t *testing.T) {
 	vh.Drive(t, vh.Spec[SpzCase]{Name: "spz-decode", Quick: 80000, Thorough: 2400000, Gen: genSpz, Run: runSpz})
 	vh.Drive(t, vh.Spec[PlyCase]{Name: "splat-ply", Quick: 100000, Thorough: 3000000, Gen: genPlyCase, Run: runPly})
 	vh.Enumerate(t, vh.Spec[SpzCase]{Name: "spz-half-grid", Run: runSpz,
-		Key:    func(c SpzCase) string { return fmt.Sprintf("half-block-%d", binary.LittleEndian.Uint16(c.Pos)) },
-		Sample: func(c SpzCase) any { return fmt.Sprintf("version 1, %d points, halves from %#04x", c.N, binary.LittleEndian.Uint16(c.Pos)) }}, halfGrid())
+		Key: func(c SpzCase) string { return fmt.Sprintf("half-block-%d", binary.LittleEndian.Uint16(c.Pos)) },
+		Sample: func(c SpzCase) any {
+			return fmt.Sprintf("version 1, %d points, halves from %#04x", c.N, binary.LittleEndian.Uint16(c.Pos))
+		}}, halfGrid())
+}
+
+func FuzzC15Spz(f *testing.F) {
+	vh.Fuzz(f, vh.Spec[SpzCase]{Name: "spz-decode", Gen: genSpz, Run: runSpz})
 }
